@@ -112,6 +112,7 @@ def connectScript : List CStep → List Op
   | .raise_ :: r => .yield :: .cstep .raise_ :: connectScript r
   | .openProtocol :: r => .yield :: .cstep .openProtocol :: connectScript r
   | .useProtocol :: r => .yield :: .cstep .useProtocol :: connectScript r
+  | .checkAlive :: r => .cstep .checkAlive :: connectScript r
 
 /-! Every definition below is kept small on purpose: the theorems of C08 evaluate the interpreter in the kernel
 (`decide +kernel`), where unfolding a definition costs time proportional to the size of its body. -/
@@ -234,6 +235,7 @@ def execCStep (m : M) : CStep → Res
   | .raise_ => .raise m
   | .openProtocol => .next (m.setProto true) []
   | .useProtocol => if m.proto then .next m [] else .raise m
+  | .checkAlive => if m.spa then .next m [] else .raise m
 
 def execAfterLocate (T : Table) (env : Env) (m : M) : Res :=
   if !m.desc then .raise m
